@@ -43,7 +43,9 @@ def _case(draw):
     uniform = draw(st.booleans())
     spec = {"degree": degree, "nel": nel, "uniform": uniform}
     if not uniform:
-        incr = [draw(gen.log_uniform(-2, 0)) for _ in range(nel)]
+        # element lengths over two decades, or (graded meshes) over seven
+        lo = -7 if draw(st.integers(0, 3)) == 0 else -2
+        incr = [draw(gen.log_uniform(lo, 0)) for _ in range(nel)]
         tot = float(sum(incr))
         data = np.concatenate([[0.0], np.cumsum(incr) / tot])
         data[-1] = 1.0
@@ -169,7 +171,10 @@ def check(spec):
                 jj = j
             want = np.zeros(degree + 1)
             want[jj] = 1.0
-            expect("kronecker", site, float(np.max(np.abs(N[0] - want))), 1e-10, f"node {j} of element {el}")
+            # the node position a + j (b - a) / degree is itself rounded: its relative position inside the element is
+            # uncertain by ulp(x) / (b - a), and the basis has slopes of order degree^2 there
+            cond = 8 * degree * degree * float(np.spacing(max(abs(a), abs(b)))) / (b - a)
+            expect("kronecker", site, float(np.max(np.abs(N[0] - want))), 1e-10 + cond, f"node {j} of element {el}")
         # derivative vs differences strictly inside the element
         for s in (0.3, 0.62):
             x0 = a + s * (b - a)
